@@ -50,6 +50,8 @@ Definition ev_nontrivial (e : directive * list obs) : bool :=
   end.
 Definition nontrivial (tr : list (directive * list obs)) : bool := existsb ev_nontrivial tr.
 
+Definition tx (cs : list command) (hs : list (option (list string))) := (cs, hs).
+
 (* ---------- store family: batches of transactions against exec_batch ---------- *)
 
 Fixpoint store_mismatch_from (d : db) (tr : list (list (list command * list (option (list string))) * obs)) (i : nat)
